@@ -330,6 +330,18 @@ def unit_conv(u, rec):
                 rec.close(abs(d2 - b2 * M * N * N * D), 16 * EPS * abs(b2 * M * N * N * D), "C13/conv/reduce_gradient_norm", "delta_2 != beta_2 M N^2 D", D=D, N=N, M=M)
                 rec.close(abs(g.extract_normalized_gradient_norm_scale_from_difficulty(d2, num_spatial_dims=D, num_points=N, maximum_absolute=M) - b2), 16 * EPS * abs(b2), "C13/conv/extract_gradient_norm", "inverse", D=D, N=N)
                 rec.count(states=1, transitions=4, traces=1)
+                # the triple form (quadratic, single-channel convection, gradient norm) used by the difficulty nonlinear stepper (not re-exported)
+                from exponax.stepper.generic import _utils as gu
+
+                bt = (0.3 * s, b1, b2)
+                dt3 = gu.reduce_normalized_nonlinear_scales_to_difficulty(bt, num_spatial_dims=D, num_points=N, maximum_absolute=M)
+                wt = (bt[0], b1 * M * N * D, b2 * M * N * N * D)
+                rec.close(max(abs(x - y) for x, y in zip(dt3, wt)), 16 * EPS * max(abs(y) for y in wt), "C13/conv/reduce_nonlinear_triple",
+                          "(delta_0, delta_1, delta_2) != (beta_0, beta_1 M N D, beta_2 M N^2 D)", D=D, N=N, M=M)
+                bk3 = gu.extract_normalized_nonlinear_scales_from_difficulty(dt3, num_spatial_dims=D, num_points=N, maximum_absolute=M)
+                rec.close(max(abs(x - y) for x, y in zip(bk3, bt)), 16 * EPS * max(abs(y) for y in bt), "C13/conv/extract_nonlinear_triple", "inverse", D=D, N=N, M=M)
+                rec.check(len(dt3) == 3 and len(bk3) == 3, "C13/conv/nonlinear_triple_length", "conversion changes the tuple length")
+                rec.count(states=1, transitions=2, traces=1)
     rec.sample({"conversion_tuples": [list(t) for t in tuples]})
 
 
